@@ -152,27 +152,30 @@ def constraint_value(con, env):
 
 
 _BASES = [(3, 5, 7), (-2, 11, 4), (Fraction(1, 3), Fraction(-7, 2), 13)]
-_DIRS = [(1, 0, 0), (0, 1, 0), (0, 0, 1), (1, 1, 0), (1, 0, 1), (0, 1, 1), (1, 1, 1), (1, -2, 3), (2, 3, -1)]
+# mixed directions first: x*y is affine along the axes but not along (1, 1, 1)
+_DIRS = [(1, 1, 1), (1, -2, 3), (1, 0, 0), (0, 1, 0), (0, 0, 1)]
+_LINES = {}
 
 
-def _points(names):
-    """lines base + t*dir, t = 0, 1, 2 over the first three variable names (others stay at fixed values)"""
-    for base in _BASES:
-        for d in _DIRS:
-            line = []
-            for t in range(3):
-                env = {}
-                for i, n in enumerate(names):
-                    j = i % 3
-                    env[n] = Fraction(base[j]) + t * d[j] + (i // 3) * 17
-                line.append(env)
-            yield line
+def _lines(names):
+    """lines base + t*dir, t = 0, 1, 2; variable i of `names` moves like coordinate i mod 3 (shifted by 17 per wrap)"""
+    key = tuple(names)
+    if key not in _LINES:
+        out = []
+        for base in _BASES:
+            for d in _DIRS:
+                line = []
+                for t in range(3):
+                    line.append({n: Fraction(base[i % 3]) + t * d[i % 3] + (i // 3) * 17 for i, n in enumerate(key)})
+                out.append(line)
+        _LINES[key] = out
+    return _LINES[key]
 
 
 def provably_not_affine(con, names):
-    """True iff some second difference along a line is non-zero: then lhs - rhs is certainly not an affine
+    """True iff some exact second difference along a line is non-zero: then lhs - rhs is certainly not an affine
     function of the variables.  False = affine on every probed line or undefined there (no verdict)."""
-    for line in _points(names):
+    for line in _lines(names):
         try:
             v = [constraint_value(con, env) for env in line]
         except ZeroDivisionError:
@@ -184,7 +187,7 @@ def provably_not_affine(con, names):
 
 def defined_samples(con, names, limit=12):
     out = []
-    for line in _points(names):
+    for line in _lines(names):
         for env in line:
             try:
                 out.append((env, constraint_value(con, env)))
@@ -195,7 +198,21 @@ def defined_samples(con, names, limit=12):
     return out
 
 
+_CLASSIFY_CACHE = {}
+
+
 def classify(con, names):
+    """cached front end of _classify (the same constraint recurs under many renderings)"""
+    key = (con, tuple(names))
+    r = _CLASSIFY_CACHE.get(key)
+    if r is None:
+        if len(_CLASSIFY_CACHE) > 20000:
+            _CLASSIFY_CACHE.clear()
+        r = _CLASSIFY_CACHE[key] = _classify(con, names)
+    return r
+
+
+def _classify(con, names):
     """('OK', Affine)            syntactically linear: must be accepted with exactly this map
        ('REJECT', why)           provably not affine: must be rejected
        ('UNSPEC', why)           affine only after cancellation / never defined / division by the constant zero"""
